@@ -11,7 +11,7 @@ def check(rep):
     GR.rule_precedence(ctx)
     n = PR.rule_operator_table(ctx)
     rep.floor("operator enum members", n, 11)
-    PR.rule_compiles(ctx, rid="C02.SHAPE-COMPILES")
+    PR.rule_compiles(ctx, rid="C02.SHAPE-COMPILES", strict=False)
     n = PR.rule_translation(ctx)
     rep.floor("shapes translated and compared with the reference reading", n, 180 if rep.tier == "quick" else 1000)
     PR.rule_trailing_raise(ctx)
